@@ -7,7 +7,7 @@ pending = json.load(open(os.path.join(V, "tools", "not_applicable.json")))
 checks, na, served = [], [], []
 for pid in props:
     sp = os.path.join(V, "harness", pid.lower(), "spec.json")
-    if os.path.exists(sp) and json.load(open(sp)).get("registered", True):
+    if os.path.exists(sp) and json.load(open(sp)).get("registered", False):
         s = json.load(open(sp))
         served.append(pid)
         checks.append({
